@@ -327,6 +327,15 @@ def gen_path(rng, malformed):
 def gen_op(rng, cfg, n_ents, malformed, ents=()):
     """one operation; mostly events; direct writes only when an entry exists; unless the stream is
     the malformed one, operations whose precondition (an assert in the code) fails are re-drawn"""
+    if n_ents >= 2 and rng.random() < 0.04:
+        # targeted: move a side that has a path but NO id (what ousting by a rename-over event, an id re-used by a
+        # direct assignment, or a re-keyed kid leaves behind) onto an entry that OWNS an id on that side
+        # (the "path first, then id" order of SyncEntry.__setitem__)
+        cands = [(d, s_, sd) for sd in (0, 1) for s_ in range(n_ents) for d in range(n_ents)
+                 if d != s_ and ents[s_][sd]._path and not ents[s_][sd]._oid and ents[d][sd]._oid]
+        if cands:
+            d, s_, sd = cands[rng.randrange(len(cands))]
+            return ["move", d, s_, sd]
     for _ in range(20):
         op = gen_op1(rng, cfg, n_ents, malformed)
         if malformed or applicable(op, ents):
@@ -346,7 +355,13 @@ def applicable(op, ents):
     if k == "split":
         return bool(ents[op[1]][0]._oid)
     if k == "move":
-        return op[1] != op[2] and op[1] < len(ents) and op[2] < len(ents) and (not ents[op[2]][op[3]]._path or bool(ents[op[2]][op[3]]._oid))
+        # SyncEntry.__setitem__: an incoming side WITH an id is announced id first, then path; one WITHOUT an id
+        # path first, then id (None).  _change_path asserts the destination's CURRENT id only in the second order,
+        # so the only failing precondition is: incoming path, no incoming id, and no id on the destination either.
+        if not (op[1] != op[2] and op[1] < len(ents) and op[2] < len(ents)):
+            return False
+        src, dst = ents[op[2]][op[3]], ents[op[1]][op[3]]
+        return not src._path or bool(src._oid) or bool(dst._oid)
     if k == "updent":
         e = ents[op[1]][op[2]]
         return (op[3] or e._oid) and not (op[8] == 2 and op[6])
@@ -438,6 +453,9 @@ def run_real(cfg, ops=None, rng=None, nops=0, malformed=False):
             if ops is None:
                 nops += 0
             continue
+        if op[0] == "move" and REC.ents[op[2]][op[3]]._path and not REC.ents[op[2]][op[3]]._oid:
+            # the "path first, then id" order of SyncEntry.__setitem__ (incoming side has a path and no id)
+            REC.move_idless = getattr(REC, "move_idless", 0) + 1
         res, tape = real.step(op)
         out_ops.append(op)
         results.append(res)
@@ -457,15 +475,17 @@ def model_request(cfg, ops, tapes):
 
 
 # ------------------------------------------------------------------ one case end to end
-CLAIMED = ("i-oid", "i-path", "ii-oid", "ii-path", "iii", "iv-missing")     # C11_idx_partial
+CLAIMED = ("i-oid", "i-path", "ii-oid", "ii-path", "iii", "iv-missing")     # (i)-(iii): C11_idx_reachable inside the guards; reported everywhere
 REFUTED = ("iv-extra", "iv-forgotten")                                       # changeset_exact_refuted
 
 
 def eval_case(model, cfg, ops=None, rng=None, nops=0, malformed=False):
     """-> dict(ops, mismatch, claimed violations, refuted-clause hits, error kind, stats)"""
+    REC.move_idless = 0
     ops, results, tapes, viol = run_real(cfg, ops=ops, rng=rng, nops=nops, malformed=malformed)
     mo = model.call(model_request(cfg, ops, tapes)) if ops else []
-    out = dict(ops=ops, mismatch=None, claimed=[], refuted=[], err=None, steps=len(ops))
+    out = dict(ops=ops, mismatch=None, claimed=[], refuted=[], err=None, steps=len(ops), move_idless=REC.move_idless,
+               tapes=tapes)
     if mo != results:
         k = 0
         while k < min(len(mo), len(results)) and mo[k] == results[k]:
@@ -498,8 +518,11 @@ def _worker(args):
     import random
     rng = random.Random(seed_label)
     model = fw.ModelProc("state")
+    gmodel = fw.ModelProc("stateguard")
     dist = fw.Distinct()
-    st = dict(sequences=0, steps=0, malformed=0, op_kinds={}, errors={}, refuted_hits={}, lengths={}, flavours={})
+    st = dict(sequences=0, steps=0, malformed=0, op_kinds={}, errors={}, refuted_hits={}, lengths={}, flavours={},
+              guard=dict(sequences=0, sequences_fully_guarded=0, steps=0, steps_guard_true=0, steps_guard_false={},
+                         claimed_violation_inside_guard=0))
     bad = []
     samples = []
     for i in range(n):
@@ -515,6 +538,7 @@ def _worker(args):
         for o in r["ops"]:
             k = o[0] if o[0] != "set" else "set." + o[3]
             st["op_kinds"][k] = st["op_kinds"].get(k, 0) + 1
+        st["op_kinds"]["move.idless_source_with_path"] = st["op_kinds"].get("move.idless_source_with_path", 0) + r["move_idless"]
         ek = {None: "none", 0: "RecursionError", 1: "AssertionError", 2: "KeyError"}[r["err"]]
         st["errors"][ek] = st["errors"].get(ek, 0) + 1
         for _, v in r["refuted"]:
@@ -522,12 +546,41 @@ def _worker(args):
             st["refuted_hits"][t] = st["refuted_hits"].get(t, 0) + 1
         dist.add((cfg["oip"], cfg["cs"], r["ops"]), nontrivial=r["steps"] >= 2)
         case = dict(kind="sequence", cfg=cfg, ops=r["ops"])
+        inside = guard_stats(gmodel, cfg, r, st["guard"])
         if r["mismatch"] or r["claimed"]:
-            bad.append(dict(case=case, mismatch=r["mismatch"], claimed=r["claimed"]))
+            bad.append(dict(case=case, mismatch=r["mismatch"], claimed=r["claimed"], inside_guard=inside))
         if i < 2:
             samples.append(dict(cfg=cfg, ops=r["ops"], error=ek))
     model.close()
+    gmodel.close()
     return dict(stats=st, bad=bad[:10], nbad=len(bad), total=dist.total, seen=list(dist.seen), samples=samples)
+
+
+def guard_stats(gmodel, cfg, r, g):
+    """hypothesis of C11_idx_reachable on this run: StateGuardModel.run prints, for every executed step, whether the
+    operation satisfies its guard (op_guardb) in the model state it is applied to (C11_guard_trace_decides).
+    -> True when a claimed clause fails at a step up to which every guard bit is 1 (the theorem says: impossible)"""
+    if not r["ops"]:
+        return False
+    bits = gmodel.call(model_request(cfg, r["ops"], r["tapes"]))
+    g["sequences"] += 1
+    g["steps"] += len(bits)
+    ok_prefix = 0
+    while ok_prefix < len(bits) and bits[ok_prefix] == 1:
+        ok_prefix += 1
+    if ok_prefix == len(bits):
+        g["sequences_fully_guarded"] += 1
+    for j, b in enumerate(bits):
+        if b == 1:
+            g["steps_guard_true"] += 1
+        else:
+            o = r["ops"][j]
+            k = o[0] if o[0] != "set" else "set." + o[3]
+            g["steps_guard_false"][k] = g["steps_guard_false"].get(k, 0) + 1
+    inside = any(i < ok_prefix and v.split(":")[0] in ("i-oid", "i-path", "ii-oid", "ii-path", "iii") for i, v in r["claimed"])
+    if inside:
+        g["claimed_violation_inside_guard"] += 1
+    return inside
 
 
 def _merge(a, b):
@@ -607,7 +660,9 @@ def run(ctx):
                 if b["claimed"]:
                     tags = sorted({v.split(":")[0] for _, v in b["claimed"]})
                     small = shrink_case(model, case, lambda r, tags=tags: any(v.split(":")[0] in tags for _, v in r["claimed"]))
-                    ctx.violation("index clause(s) %s fail on the real SyncState: %s" % (tags, b["claimed"][0][1]), small)
+                    ctx.violation("index clause(s) %s fail on the real SyncState%s: %s"
+                                  % (tags, " INSIDE the guarded domain of C11_idx_reachable" if b.get("inside_guard") else "",
+                                     b["claimed"][0][1]), small)
                 if b["mismatch"]:
                     small = shrink_case(model, case, lambda r: r["mismatch"] is not None)
                     ctx.violation("model and implementation differ at step %d: model %s impl %s"
@@ -628,7 +683,8 @@ def run(ctx):
     cov["traces_validated_against_impl"] = stats.get("steps", 0)
     tb = ["Coq 8.16.1 kernel (coqc); vm_compute used by the _refuted witnesses; no native_compute",
           "axioms per theorem as printed by Print Assumptions: " + (", ".join(cov.get("axioms_used", [])) or "none (closed under the global context)"),
-          "extraction: ExtrOcamlBasic only; OCaml 4.13.1; coq/ocaml/driver.ml",
+          "extraction: ExtrOcamlBasic only; OCaml 4.13.1; coq/ocaml/driver.ml (coq/bin/state = StateModel.run; coq/bin/stateguard = "
+          "StateGuardModel.run, the guard bits of C11_idx_reachable's hypothesis, C11_guard_trace_decides)",
           "PathModel (C13) for normalize_path_separators / is_subpath / join / dirname of the providers",
           "correspondence harness harness/checks/c11.py: generators, canonicalisation, virtual clock patched into "
           "cloudsync.sync.state.time, SyncEntry creation serials and serial-derived __hash__, recording (not altering) of the "
